@@ -5,6 +5,7 @@ mod list;
 mod prefix;
 mod session;
 mod util;
+mod vm;
 
 fn main() {
     let args: Vec<String> = std::env::args().collect();
@@ -22,6 +23,7 @@ fn main() {
         "list" => list::main(),
         "prefix" => prefix::main(),
         "session" => session::main(),
+        "vm" => vm::main(),
         other => {
             eprintln!("unknown subcommand {other}");
             std::process::exit(2);
